@@ -84,6 +84,11 @@ func (fst *FSTree) buildFilePath(key string, checkKeyLength bool) (string, error
 	if dstPath != fst.basePath && !strings.HasPrefix(dstPath, scopePrefix) {
 		return "", fmt.Errorf("fstree: key integrity check failed, compiled path is %s", dstPath)
 	}
+	// Only a query prefix may address the base path itself, a record key
+	// (eg. "." or "a/..") must name a file below it.
+	if checkKeyLength && dstPath == fst.basePath {
+		return "", fmt.Errorf("fstree: key integrity check failed, key %q resolves to the database directory", key)
+	}
 	// return
 	return dstPath, nil
 }
